@@ -40,6 +40,10 @@ func init() {
 func (harness) Property() string { return "C15" }
 
 func (harness) Configs(tier string) []xplore.Config {
+	return xplore.WithReverse(configsBase(tier))
+}
+
+func configsBase(tier string) []xplore.Config {
 	scripts := [][]string{
 		{"upd x", "sync", "upd x", "upd y"},
 		{"sync", "upd x", "reset", "upd x"},
@@ -74,7 +78,7 @@ func (harness) Run(cfg xplore.Config, ch vrt.Chooser, trace bool) (xplore.Outcom
 	viol := func(class, format string, a ...interface{}) {
 		out.Violations = append(out.Violations, xplore.Violation{Class: class, Msg: fmt.Sprintf(format, a...)})
 	}
-	res := vrt.Run(ch, vrt.Options{Trace: trace, StartNanos: 0}, func() {
+	res := vrt.Run(ch, vrt.Options{Reverse: cfg.Reverse, Trace: trace, StartNanos: 0}, func() {
 		vrt.SetNow(1_000_000)
 		var opts []cache.Option
 		if d.latency {
